@@ -805,7 +805,9 @@ def run_files(ctx, n, ftab_argc):
 # Range::from_sparse over the formula cells).
 import fmlagen as fg
 
-KNOWN_PTGEXP = "K_PTGEXP"
+# (K_PTGEXP, shared / array formula cells reported without their formula, is repaired in both binary
+#  readers: xls d24e473, xlsb "fix: xlsb cells of shared and array formulas were reported without their
+#  formula"; no class of this property is left)
 KNOWN_XLS_NAME = "K_XLS_NAME_FORMULA"
 KNOWN_XLSX_CDATA = "K_XLSX_NAME_CDATA"
 E2E_DIR = os.path.join(vlib.CACHE, "tmp", "c14")
@@ -1010,7 +1012,7 @@ def run_xlsb_files(ctx, n, argc):
             hexb, text = _pick_ast(model, x["cands"], "1e0700", "7") if x["cands"] else ("", "")
             payloads.append(fg.brt_name_payload(x["flags"], x["itab"], x["name"], bytes.fromhex(hexb), x["chkey"], x["comment"]))
             exp_names.append((x["name"], text))
-        sheet_cells, exp_sheets, has_exp, mlines, tables = [], [], False, [], []
+        sheet_cells, exp_sheets, mlines, tables = [], [], [], []
         for si, slots in enumerate(sheets):
             recs, cells_prop, cells_model, cells_all = [], [], [], []
             for (r, c, kind, what) in slots:
@@ -1306,7 +1308,7 @@ def run_xls_files2(ctx, n, argc):
             if m != e[1]:
                 ctx.disagreements.append({"function": "formula_range (FormulaEnv model vs expansion of the generator)", "case": line,
                                           "impl": e[1], "model": m})
-        _check_book(ctx, "xls", line, impl.get(lid), ",".join(want), es, KNOWN_PTGEXP if has_exp else None, model_names=mnames)
+        _check_book(ctx, "xls", line, impl.get(lid), ",".join(want), es, None, model_names=mnames)
     ctx.extra["generated_xls_files"] = len(books)
     return meta, impl
 
